@@ -47,7 +47,8 @@ TRUSTED = [
 ]
 ASSUMPTIONS = [
     'workbooks are acyclic (cycles are C06); volatile functions are not used',
-    'set_cell_value targets input (constant) cells, by address or by a defined name bound to a cell; the '
+    'set_cell_value targets input (constant) cells, by address (a string, or an XLCell object carrying the address: '
+    'the stored cell object or a fresh one, also for an address the model does not hold yet), or by a defined name bound to a cell; the '
     'theorems also cover sets on formula cells (ignored by evaluation), the correspondence does not generate them',
     'get_cell_value of a formula cell that was recomputed as a precedent of another evaluation may return any '
     'value computed for it since its own last evaluation (the statement says "last value computed")',
@@ -393,11 +394,20 @@ def random_history(rng, wb, length):
                 v = rng.choice(TWIN_VALUES)
             else:
                 v = rng.choice(INPUT_VALUES) if rng.random() < 0.8 else rng.choice(SPECIAL_VALUES)
-            h.append(('s', rng.choice(in_handles), v))
+            hd = rng.choice(in_handles)
+            if rng.random() < 0.06:
+                hd = 'Sheet1!Y98'           # an address the workbook neither stores nor references: set creates the cell
+            if hd not in names and rng.random() < 0.3:
+                # the documented second spelling of the address: an XLCell object (Model.set_cell_value:
+                # "XLCell or a string is needed"); for the Lean model this IS a set by address
+                h.append(('s', hd, v, 'xl'))
+            else:
+                h.append(('s', hd, v))
         elif r < 0.86:
             h.append(('e', rng.choice(all_handles)))
         elif r < 0.97:
-            h.append(('g', rng.choice(all_handles + ins)))
+            hd = rng.choice(all_handles + ins)
+            h.append(('g', hd, None, 'xl') if hd not in names and rng.random() < 0.25 else ('g', hd))
         elif r < 0.985:
             h.append(('g', 'Sheet1!Z99'))
         else:
@@ -406,8 +416,11 @@ def random_history(rng, wb, length):
 
 
 def wire_op(op):
+    xl = len(op) > 3 and op[3] == 'xl'      # XLCell object as the address: `S~` / `G~` (Model.C04.setCellValueH …)
     if op[0] == 's':
-        return f's~{evalwire.cp(op[1])}~{evalwire.wire_scalar(op[2])}'
+        return f"{'S' if xl else 's'}~{evalwire.cp(op[1])}~{evalwire.wire_scalar(op[2])}"
+    if op[0] == 'g' and xl:
+        return f'G~{evalwire.cp(op[1])}'
     return f'{op[0]}~{evalwire.cp(op[1])}'
 
 
@@ -486,14 +499,21 @@ def run_history(wb, oracle, hist):
         if kind == 's':
             v = op[2]
             try:
-                ev.set_cell_value(handle, v)
+                if len(op) > 3 and op[3] == 'xl':
+                    from xlcalculator.xltypes import XLCell
+                    # the cell object itself when the model stores one and the step is even, else a fresh XLCell
+                    obj = model.cells[addr] if (addr in model.cells and isinstance(model.cells[addr], XLCell)
+                                                and i % 2 == 0) else XLCell(addr, None)
+                    ev.set_cell_value(obj, v)
+                else:
+                    ev.set_cell_value(handle, v)
             except Exception as exc:  # noqa: BLE001
                 bad('set_cell_value raised', i, 'the value is stored', 'X:' + type(exc).__name__)
                 break
             inputs[addr] = v
             version += 1
             want = common.canon(v)
-            got = common.canon(model.cells[addr].value) if addr in model.cells else 'missing'
+            got = common.call_real(lambda: model.cells[addr].value) if addr in model.cells else 'missing'
             got2 = common.call_real(ev.get_cell_value, handle)
             got3 = common.call_real(ev.get_cell_value, addr)
             if not (got == want and got2 == want and got3 == want):
@@ -523,7 +543,11 @@ def run_history(wb, oracle, hist):
                     states_since[a].append((sk, st))
             obs.append(f'e~{r}~{stored}')
         else:
-            got = common.call_real(ev.get_cell_value, handle)
+            if len(op) > 3 and op[3] == 'xl':
+                from xlcalculator.xltypes import XLCell
+                got = common.call_real(ev.get_cell_value, XLCell(addr, 'ignored'))
+            else:
+                got = common.call_real(ev.get_cell_value, handle)
             if addr in formulas:
                 cands = {own.get(addr, 'Z')}
                 if addr not in own:
